@@ -95,6 +95,7 @@ type Machine struct {
 	pinned          map[string]any
 	keep            int
 	note            string
+	lastPanicSite   string
 	kindStats       map[string]int
 	known           map[uint64][]*Term
 	knownHits       int
@@ -405,6 +406,18 @@ func (m *Machine) initPackage(pkg *ssa.Package) {
 			if _, ok := m.globals[g]; !ok {
 				cell := zero(deref(g.Type()))
 				m.globals[g] = &cell
+			}
+		}
+	}
+	if pkg.Pkg.Path() == "os" {
+		// os's initializer is not run; its error sentinels alias io/fs's (as in the real package)
+		if fsp := m.pkgs["io/fs"]; fsp != nil {
+			for _, n := range []string{"ErrInvalid", "ErrPermission", "ErrExist", "ErrNotExist", "ErrClosed"} {
+				if og, ok := pkg.Members[n].(*ssa.Global); ok {
+					if fg, ok := fsp.Members[n].(*ssa.Global); ok {
+						*m.globals[og] = *m.globalAddr(fg)
+					}
+				}
 			}
 		}
 	}
